@@ -351,3 +351,78 @@ package pbft
 //@            && (typeIs(mi.Msg, *BlockPartMessage) ==> unbox(mi.Msg, *BlockPartMessage) != nil && unbox(mi.Msg, *BlockPartMessage).Part != nil) \
 //@            && (typeIs(mi.Msg, *VoteMessage) ==> unbox(mi.Msg, *VoteMessage) != nil && unbox(mi.Msg, *VoteMessage).Vote != nil)
 //@   aborts when [where-state-functions-abort] calls(tryAddVote) >= 1 || calls(addProposalBlockPart) >= 1 || calls(setProposal) >= 1
+
+// ---------------------------------------------------------------------------------------------
+// per-peer gossip state (C08): every bit array kept for a peer is nil or internally consistent
+
+//@ pred wfPRS(ps *PeerState) = ps != nil && wfBAorNil(ps.PeerRoundState.ProposalBlockParts) && wfBAorNil(ps.PeerRoundState.ProposalPOL) && wfBAorNil(ps.PeerRoundState.Prevotes) \
+//@      && wfBAorNil(ps.PeerRoundState.Precommits) && wfBAorNil(ps.PeerRoundState.LastCommit) && wfBAorNil(ps.PeerRoundState.CatchupCommit)
+
+//@ func wellFormedBitArray
+//@   props C08
+//@   pure
+//@   ensures result == wfBAorNil(bA)
+
+//@ func (*PeerState).ApplyCommitStepMessage
+//@   props C08
+//@   requires ps != nil && msg != nil
+//@   invariant-assumed wfPRS(ps)
+//@   assigns  ps.PeerRoundState.ProposalBlockPartsHeader.*, ps.PeerRoundState.ProposalBlockParts, ps.mtx.*
+//@   ensures  [stored-array-is-consistent-with-header] ps.PeerRoundState.ProposalBlockParts != old(ps.PeerRoundState.ProposalBlockParts) ==> wfBA(ps.PeerRoundState.ProposalBlockParts) && ps.PeerRoundState.ProposalBlockParts.Bits == ps.PeerRoundState.ProposalBlockPartsHeader.Total
+//@   ensures  wfPRS(ps)
+
+//@ func (*PeerState).ApplyProposalPOLMessage
+//@   props C08
+//@   requires ps != nil && msg != nil
+//@   invariant-assumed wfPRS(ps)
+//@   assigns  ps.PeerRoundState.ProposalPOL, ps.mtx.*
+//@   ensures  wfPRS(ps)
+
+//@ func (*PeerState).getVoteBitArray
+//@   props C08
+//@   requires ps != nil
+//@   invariant-assumed wfPRS(ps)
+//@   pure
+//@   aborts when type_ != 1 && type_ != 2
+//@   ensures  wfBAorNil(result)
+//@   ensures  result != nil ==> result == ps.PeerRoundState.Prevotes || result == ps.PeerRoundState.Precommits || result == ps.PeerRoundState.CatchupCommit || result == ps.PeerRoundState.ProposalPOL || result == ps.PeerRoundState.LastCommit
+
+//@ func (*PeerState).setHasVote
+//@   props C08
+//@   requires ps != nil
+//@   invariant-assumed wfPRS(ps)
+//@   aborts when type_ != 1 && type_ != 2
+//@   ensures  wfPRS(ps)
+
+//@ func (*PeerState).ApplyHasVoteMessage
+//@   props C08
+//@   requires ps != nil && msg != nil
+//@   invariant-assumed wfPRS(ps)
+//@   aborts when msg.Type != 1 && msg.Type != 2
+//@   ensures  wfPRS(ps)
+
+//@ func (*PeerState).ApplyVoteSetBitsMessage
+//@   props C08
+//@   requires ps != nil && msg != nil && wfBAorNil(ourVotes)
+//@   invariant-assumed wfPRS(ps)
+//@   aborts when msg.Type != 1 && msg.Type != 2
+//@   ensures  wfPRS(ps)
+
+//@ func (*PeerState).SetHasProposal
+//@   props C08
+//@   requires ps != nil && proposal != nil
+//@   invariant-assumed wfPRS(ps)
+//@   ensures  [allocation-bounded] ps.PeerRoundState.ProposalBlockParts != old(ps.PeerRoundState.ProposalBlockParts) ==> 0 <= proposal.BlockPartsHeader.Total && proposal.BlockPartsHeader.Total <= types.MaxBlockSize
+//@   ensures  wfPRS(ps)
+
+//@ func (*PeerState).SetHasProposalBlockPart
+//@   props C08
+//@   requires ps != nil
+//@   invariant-assumed wfPRS(ps)
+//@   ensures  wfPRS(ps)
+
+//@ func (*PeerState).ensureVoteBitArrays
+//@   props C08
+//@   requires ps != nil && numValidators >= 0
+//@   invariant-assumed wfPRS(ps)
+//@   ensures  wfPRS(ps)
